@@ -284,6 +284,41 @@ def dedup(l):
     return out
 
 
+def check_pysnmp_defaults(ctx, obs):
+    """the default written into the syntax class of the generated pysnmp module (defaultValue / defaultHexValue /
+    defaultBinValue of `_<Name>_Type`) denotes the number the MIB gives, for integer-valued defaults"""
+    res = ctx.res
+    g = obs['gen']
+    inp = {'seed': obs['seed'], 'texts': obs['texts'], 'backend': 'pysnmp'}
+    for mn, m in g.modules.items():
+        ex = obs['pysnmp'].get(mn)
+        if not ex or ex.get('ns') is None:
+            continue
+        for d in m['decls']:
+            if d['kind'] != 'objectType' or not d.get('defval'):
+                continue
+            k, v = d['defval']
+            t = g.truth[(mn, d['name'])]
+            base = t.get('chain_base', d['syntax'])
+            if k not in ('num', 'hex', 'bin') or base.get('kind') != 'int':
+                continue
+            pyname = mibgen.jname(d['name'])
+            cls = ex['ns'].get('_%s_Type' % (pyname[:1].upper() + pyname[1:]))
+            if cls is None:
+                continue
+            res.count('pysnmp-default:' + k)
+            got = {a: cls.__dict__[a] for a in ('defaultValue', 'defaultHexValue', 'defaultBinValue') if a in getattr(cls, '__dict__', {})}
+            vals = []
+            for a, x in got.items():
+                try:
+                    vals.append(int(x))
+                except Exception:
+                    vals.append(x)
+            if vals != [v]:
+                res.oracle_failures.append({'key': 'pysnmp-default', 'what': '%s::%s: DEFVAL %s (%d) reaches the pysnmp module as %r' % (
+                    mn, d['name'], mibgen.defval_text(d['defval']), v, got), 'input': inp})
+
+
 def oct_base(base):
     """the resolved base type is OCTET STRING (DisplayString and other string TCs resolve to it; Opaque does not)"""
     return base.get('base') in ('OCTET STRING', 'DisplayString') or (base.get('kind') == 'str' and base.get('base') != 'Opaque')
@@ -315,6 +350,10 @@ def run(ctx):
                             res.count('syntax:' + k)
         check_set(ctx, obs)
         basetype_stream(ctx, obs, reqs, metas)
+        if True:
+            # the same defaults through the pysnmp backend (sets drawn without the two constructs its template cannot load)
+            obs2 = cg.run_set(base + 50000 + i, backends=('pysnmp',), exotic_defvals=True, pysnmp_safe=True)
+            check_pysnmp_defaults(ctx, obs2)
     compare(ctx, reqs, metas)
     res.sample({'literal_case': metas[0][1], 'impl': metas[0][2]})
     res.sample({'module_text': list(obs['texts'].values())[0][:1200]})
@@ -334,6 +373,15 @@ def replay(payload):
         cgn = IntermediateCodeGen()
         out = (cgn.genIntegerSubType if inp['which'] == 'range' else cgn.genOctetStringSubType)([inp['alts']])
         return {'fails': False, 'what': out}
+    if inp.get('backend') == 'pysnmp':
+        import common
+
+        class C:
+            pass
+        c = C()
+        c.res = common.Result('C05', 'quick', 0)
+        check_pysnmp_defaults(c, cg.run_set(inp['seed'], backends=('pysnmp',), exotic_defvals=True, pysnmp_safe=True))
+        return {'fails': bool(c.res.oracle_failures), 'what': [f['what'] for f in c.res.oracle_failures[:5]]}
     texts = inp['texts']
     r, out, _ = pipeline.compile_set(texts, genTexts=True)
     bad = []
